@@ -79,10 +79,11 @@ def buildGo : Nat → List (BitVec 64) → Nat → Nat → Nat → List Nat × L
     let block := rest.take Gen.RANK_WORDS_PER_BLOCK
     -- let l1_rank = (cumulative_rank - l0_base) as u32;
     let l1 := (cum - base) % 2 ^ 32
-    let (l2, bc) := blockLoop block 0 (List.replicate 7 0) 0
-    let entry := packEntry l1 l2
+    -- (l2_offsets, block_cumulative) after the inner loop
+    let bl := blockLoop block 0 (List.replicate 7 0) 0
+    let entry := packEntry l1 bl.1
     -- cumulative_rank += block_cumulative as u64;
-    let r := buildGo n (rest.drop Gen.RANK_WORDS_PER_BLOCK) (blockIdx + 1) ((cum + bc) % 2 ^ 64) base
+    let r := buildGo n (rest.drop Gen.RANK_WORDS_PER_BLOCK) (blockIdx + 1) ((cum + bl.2) % 2 ^ 64) base
     ((if newSuper then [cum] else []) ++ r.1, entry :: r.2)
 
 /-- `RankDirectory::build`. -/
